@@ -27,6 +27,32 @@ CLAIMED["C02"] = ("model_checking",
   "Trusted: TLC, Json module, harness/project.go, and compress/flate + golang/snappy + hash/crc32 as the environment's decompression oracle (TLA+ does not interpret compressed bytes). The text of time.Time strings is not yet compared with the instant (only that a string was written).",
   "DESIGN.md section 6 C02")
 
+CLAIMED["C06"] = ("model_checking",
+  "TLC enumerates every single-field mutation of valid encodings from the token-level TLA+ encoder (MC_Mutate) and checks the reference decoder total on them; the mutants, framing mutations of real files, random bytes, damaged schema JSON and timestamp text are fed to every reading entry point in watchdogged child processes and the recorded outcomes are trace-validated (Trace_Robust)",
+  "The specification's reading functions are total (checked by TLC on all enumerated mutants); a real entry point must therefore return a result or an error for each of those inputs: panic, process death, time-out and allocation above 4 MiB + 4 KiB/byte are rejected. ~4,500 TLC-generated mutants (quick) through Codec.Read, Codec.Skip and ReadFile, every header/block framing varint x 15 replacements, truncations, flips, random strings, ~700 schema documents, ~900 timestamp strings.",
+  "Trusted: TLC, harness child-process isolation (20 s watchdog, 8 GiB RLIMIT_AS), runtime.MemStats.TotalAlloc. 'All byte strings' is explored, not proved. Arrays of zero-byte items with huge counts are a listed known finding.",
+  "DESIGN.md section 6 C06")
+CLAIMED["C07"] = ("model_checking",
+  "TLA+ ReaderDamage state machine (header/block/decompress/record/sync with damage and callback-failure environment actions) model-checked by TLC; ReadFile on bit-flipped, header-damaged and callback-failing runs trace-validated by TLC (Trace_Reader) with an independent decompressor as environment oracle",
+  "TLC checks the C07 statement on the abstract reader for every file of <= 3 blocks x <= 2 records with any combination of rejected payloads, checksum mismatches, bad sync markers, five header variants and every callback failure index (222k states). Every recorded ReadFile run on real files is then judged: single-bit flips in every sync marker and snappy checksum and across compressed payloads (classified by compress/flate, snappy, crc32 called independently), header variants (missing codec = uncompressed must succeed), callback failing at each record index (error returned by identity, exactly i records delivered before).",
+  "Trusted: TLC, harness/project.go, flate/snappy/crc32 as environment oracle. A flipped payload the independent decompressor still accepts imposes only no-panic and intact earlier blocks.",
+  "DESIGN.md section 6 C07")
+CLAIMED["C08"] = ("model_checking",
+  "TLA+ AvroSystem (writer emits symbols, Crash(cut) at every position, reader on the prefix) model-checked by TLC; ReadFile on every prefix of real files trace-validated by TLC: expected delivery computed by Container/Trace_Reader!CutWalk from the file bytes",
+  "TLC checks on the abstract system, for every history and every cut, that the reader delivers exactly the records of blocks whose payload is completely below the cut and succeeds iff the cut is at the end of the header or of a block. For 21 real files (3 codecs x 7 block layouts including a 70-record block = two-byte count and a 9000-byte record = three-byte length) every cut position (or every cut near a field boundary plus a stride for the large ones) is read with the real ReadFile through four reader kinds and judged by TLC.",
+  "Trusted: TLC, harness/project.go. Files are produced by the library's writer and re-validated by the TLA+ container parser before use.",
+  "DESIGN.md section 6 C08")
+CLAIMED["C09"] = ("model_checking",
+  "TLA+ AvroSystem writer invariants (gap-free, threshold, after-flush) model-checked by TLC; Encoder/FileWriter call histories trace-validated by the Trace_Encoder state machine (pend/sync/acc) after every call",
+  "TLC checks the encoder design exhaustively (histories <= 3/4 ops, block sizes {0..5}, record sizes {0..3}, with faults and crashes: 258k / 1.4M states). Every history over {encode(size), flush} up to length 3 (5 thorough) x block sizes {0,1,2,3,5} x 3 codecs plus random histories up to 40 calls, a record type whose encoding is empty, and FileWriter used directly, is run against the real Encoder with a recording writer; after each call TLC demands exactly one block (exact count, payload = concatenation of the pending encodings via the decompression oracle, header's sync) when the buffered bytes reach the block size or flush has records pending, and no bytes otherwise.",
+  "Trusted: TLC, flate/snappy/crc32 as decompression oracle.",
+  "DESIGN.md section 6 C09")
+CLAIMED["C16"] = ("model_checking",
+  "TLA+ AvroSystem with WriteFail(k, accepted prefix) model-checked by TLC; every history re-run with the k-th writer call failing and trace-validated by Trace_Encoder (error wraps the injected error, accepted bytes are a prefix of the fault-free output modulo the sync marker)",
+  "Fault enumeration over every writer call index k (sampled when a history has more than 6/40 calls) x accepted-prefix classes {0, 1, all-1} for every enumerated and random history and for FileWriter.WriteHeader/WriteBlock; TLC judges that the call in which the failure happens returns an error for which errors.Is(err, injected) holds, does not panic, and that all bytes accepted so far are a prefix of the same history's fault-free output with this run's sync marker.",
+  "Trusted: TLC; the fault-free reference output is produced by the library in the same run and is itself judged as a C09 trace.",
+  "DESIGN.md section 6 C16")
+
 NOT_APPLICABLE = {}
 
 def main():
